@@ -311,6 +311,45 @@ def job_files(job):
     q2 = quantizer_lib.Quantizer(bytearray(b''), real)
     if json.loads(json.dumps(q2.get_quantization_recipe())) != real:
       bad.append(f'{os.path.basename(f)}: second round trip differs')
+  # save(): the recipe written next to the model is the recipe that produced
+  # it, loads from its path, and reproduces the saved model byte for byte
+  import tempfile, shutil
+  from props import pipeline as P
+  mb = P.model_bytes_of('fc_fc')
+  for tag, upd in (
+      ('WO', [('.*', '*', 'WO')]),
+      ('DRQ then WO4 on fc1', [('.*', '*', 'DRQ'), ('fc1', 'FULLY_CONNECTED',
+                                                     'WO4')]),
+      ('FP16 then no_quantize on y', [('.*', '*', 'FP16'),
+                                      ('^y;$', '*', 'NOQ')])):
+    n += 1
+    d = tempfile.mkdtemp(prefix='c12_save_')
+    try:
+      q = quantizer_lib.Quantizer(mb, None)
+      for rx, op, mode in upd:
+        r = P.rule(rx, op, mode)
+        q.update_quantization_recipe(
+            r['regex'], r['operation'],
+            qtyping.OpQuantizationConfig.from_dict(r['op_config'])
+            if r.get('op_config') else None, r['algorithm_key'])
+      res = q.quantize()
+      res.save(d, 'm')
+      with open(os.path.join(d, 'm_recipe.json')) as fh:
+        on_disk = json.load(fh)
+      if on_disk != json.loads(json.dumps(q.get_quantization_recipe())):
+        bad.append(f'save() [{tag}]: recipe file differs from the recipe of '
+                   'the Quantizer that produced the model')
+      with open(os.path.join(d, 'm.tflite'), 'rb') as fh:
+        if fh.read() != bytes(res.quantized_model):
+          bad.append(f'save() [{tag}]: model file differs from the result')
+      q2 = quantizer_lib.Quantizer(mb, os.path.join(d, 'm_recipe.json'))
+      if bytes(q2.quantize().quantized_model) != bytes(res.quantized_model):
+        bad.append(f'save() [{tag}]: quantizing with the saved recipe file '
+                   'gives other bytes than the saved model')
+    except Exception as ex:  # pylint: disable=broad-except
+      bad.append(f'save() [{tag}]: {type(ex).__name__}: {ex}')
+    finally:
+      shutil.rmtree(d, ignore_errors=True)
   from ai_edge_quantizer import recipe as recipe_lib
   n += 1
   q = quantizer_lib.Quantizer(bytearray(b''), recipe_lib.dynamic_wi8_afp32())
